@@ -813,6 +813,21 @@ def S06(p):
             yield "%s@%d" % (ln.info.get("kw"), min(ln.depth, 3)), ap
 
 
+@op("S06b", "ASSIGN_IN_CONTROL", ("c",))
+def S06b(p):
+    """The assignment sits in a parenthesised group that opens on a continuation line of a cut condition."""
+    for i, ln in enumerate(p.lines):
+        if ln.kind == "cont" and ln.info.get("K") == "K1" and vwidth(ln.text) <= 70:
+            def ap(q, i=i):
+                lex = q.lines[i].lex
+                k0 = lead_tabs(q.lines[i]) + 2          # after the leading && / || and its space
+                kc = [j for j, x in enumerate(lex) if "ctrl-close" in x.tags]
+                lex.insert(kc[0] if kc else len(lex), Lx(")", "par"))
+                lex[k0:k0] = [Lx("(", "par"), Lx("zz", "id"), SP(), Lx("=", "op"), SP()]
+                return i
+            yield "%s@%d%s" % (ln.info.get("kw"), min(ln.depth, 3), "" if any("ctrl-close" in x.tags for x in ln.lex) else "-mid"), ap
+
+
 @op("S07", "TOO_MANY_INSTR", ("c",))
 def S07(p):
     for i, ln in _ctrl_lines(p):
